@@ -772,6 +772,12 @@ def clamps(ctx):
             v = s.value
             while isinstance(v, ast.Call) and isinstance(v.func, ast.Name) and v.func.id in ("round", "int"):
                 v = v.args[0]
+            # a clamp to the legal range of a percentage is the identity inside that range (and what happens outside is
+            # the clamp rule's business)
+            from ..flow import unclamp
+            v, ranges = unclamp(v)
+            if any(r != (0, 100) for r in ranges):
+                ctx.ob("R13.7", "Color.parse_color_rgbp[clamp range]", False, "clamped to %s" % ranges, s.lineno, "a percentage channel ranges over 0..100")
             try:
                 val = Alg(env=alg.env, call_hook=_values_hook).ev(v)
             except Exception:
